@@ -70,6 +70,27 @@ func (w *World) verifyFunc(sel string, con *Contract) *FuncResult {
 	ex := newExec(w, fn, sel, con)
 	ex.uncontracted = map[string]bool{}
 	ex.specErrors = map[string]bool{}
+	if con.File == "sweep" {
+		// a zero-annotation function that implements a contracted interface method (or is used
+		// as a contracted function type) is held to that contract's panics and frame, which is
+		// all its callers know
+		for _, im := range ex.implemented() {
+			var keep []string
+			for _, p := range con.Panics {
+				for _, q := range im.m.Panics {
+					if p == q {
+						keep = append(keep, p)
+					}
+				}
+			}
+			con.Panics = keep
+			if im.m.Pure {
+				con.HasAssign, con.Assigns = true, nil
+			} else if im.m.HasAssign {
+				con.HasAssign, con.Assigns = true, im.m.Assigns
+			}
+		}
+	}
 	st := newState(ex)
 	for _, p := range con.Panics {
 		st.panicOK[p] = true
